@@ -47,5 +47,25 @@ void harness(void) {
   MUSTFAIL(r != 1, "accept_reachable");
   MUSTFAIL(r != 0, "reject_reachable");
   MUSTFAIL(!(r == 1 && pdu->actual_token.length > 300), "long_token_reachable");
+#elif WHICH == 5
+  /* lemma over the real functions: what coap_pdu_encode_header writes, the three header parsers read back */
+  HARNESS_PDU(pdu);
+  ASSUME(max_hdr_size == 6);
+  IN_SCALAR(uint8_t, proto);
+  ASSUME(IS_DGRAM(proto) || IS_TCPTLS(proto) || IS_WS(proto));
+  /* the RFC 8974 extension bytes in front of the token are those coap_add_token / coap_update_token wrote (their contracts) */
+  ASSUME(tok_len < 13 || (tok_len < 269 ? pdu->token[0] == tok_len - 13 : (pdu->token[0] == ((tok_len - 269) >> 8) && pdu->token[1] == ((tok_len - 269) & 0xff))));
+  size_t h = coap_pdu_encode_header(pdu, (coap_proto_t)proto);
+  CHECK(h >= 2 && h <= 6 && h == pdu->hdr_size, "a header was encoded");
+  const uint8_t *hdr = pdu->token - h;
+  CHECK(coap_pdu_parse_header_size((coap_proto_t)proto, hdr) == h, "round trip: the parser derives the same header size from the first byte");
+  CHECK(!IS_TCPTLS(proto) || coap_pdu_parse_size((coap_proto_t)proto, hdr, h + BIAS(tok_len)) == used_size, "round trip (TCP/TLS): the announced size is token + options + payload, for all four length forms");
+  uint8_t etype = (uint8_t)pdu->type; uint16_t emid = (uint16_t)pdu->mid; uint8_t ecode = pdu->code;
+  pdu->e_token_length = 0; pdu->actual_token.length = 0; pdu->type = 0; pdu->code = 0; pdu->mid = 0;
+  int r = coap_pdu_parse_header(pdu, (coap_proto_t)proto);
+  CHECK(r == 1, "round trip: the encoded header is accepted");
+  CHECK(pdu->code == ecode && pdu->e_token_length == tok_len + BIAS(tok_len) && pdu->actual_token.length == tok_len && pdu->actual_token.s == pdu->token + BIAS(tok_len), "round trip: code and (extended) token length are read back");
+  CHECK(!IS_DGRAM(proto) || (pdu->type == etype && pdu->mid == emid), "round trip (UDP/DTLS): type and message id are read back");
+  MUSTFAIL(!(h == 6), "tcp32_reachable"); MUSTFAIL(!(tok_len > 300 && IS_WS(proto)), "ws_long_token_reachable");
 #endif
 }
